@@ -1,6 +1,7 @@
 package main
 
 import (
+	"sort"
 	"strings"
 
 	"golang.org/x/tools/go/ssa"
@@ -47,4 +48,25 @@ func propC07(w *World, r *Report) {
 	RunScratchDiscipline(w, r)
 	RunTextAppend(w, r)
 	checkBufReset(w, r)
+
+	// index safety and termination of the shaping engine (prover, E1/E2)
+	for _, a := range boundsAssumptions {
+		r.Assumes(a)
+	}
+	reach := w.libReach(entries)
+	var fns []*ssa.Function
+	for f := range reach {
+		fns = append(fns, f)
+	}
+	sort.Slice(fns, func(i, j int) bool { return fnName(fns[i]) < fnName(fns[j]) })
+	pairs := discoverCovPairs(newBoundsRun(w), fns)
+	br := newBoundsRun(w)
+	br.covPairs = pairs
+	r.Note("coverage/array pairs used by apply methods: %d", len(pairs))
+	RunCovArray(w, r, br, pairs)
+	RunPosContracts(w, r, br, fns)
+	RunBounds(w, r, "bounds", br, fns)
+	runLoopTerm(w, r, br, fns, false)
+	r.Floor("bounds", 200)
+	r.Floor("loopterm", 50)
 }
